@@ -238,7 +238,7 @@ def invocation_sites(repo, depth=3):
     # predicate registry entries: ``for predicate, fn in REG: ... fn(value, ctx)``
     for f in m.funcs.values():
         for lp in ast.walk(f.node):
-            if isinstance(lp, ast.For) and src(lp.iter) == '_PREDICATE_REGISTRY' and isinstance(lp.target, ast.Tuple):
+            if isinstance(lp, ast.For) and src(lp.iter).split('.')[0] == __import__('engine.roles', fromlist=['x']).name(repo, 'predicate_store') and isinstance(lp.target, ast.Tuple):
                 names = [e.id for e in lp.target.elts if isinstance(e, ast.Name)]
                 for c in ast.walk(lp):
                     if isinstance(c, ast.Call) and isinstance(c.func, ast.Name) and c.func.id in names:
